@@ -82,11 +82,40 @@ Definition str_ref_abs_dots : str := [104;116;116;112;58;47;47;97;47;98;47;46;46
 Definition str_z_root : str := [122;58;47].                    (* "z:/" *)
 Definition str_dotdot_slash : str := [46;46;47].               (* "../" *)
 
-(* (3) an accepted reference against an accepted base can make the resolver fail; sophia unwraps *)
+(* (3) PRE-FIX: an accepted reference against an accepted base can make the resolver fail; sophia unwraps *)
 Example resolve_panics_refuted :
   matchb IRI str_s_slash_a = true /\ matchb IRI_reference str_ref_amb = true /\
-  resolve_impl str_s_slash_a str_ref_amb = None.
+  resolve_impl_prefix str_s_slash_a str_ref_amb = None.
 Proof. vm_compute. repeat split; reflexivity. Qed.
+
+(* (3) FIXED: resolution of a typed reference cannot fail, whatever the base and the reference *)
+Lemma ox_path_unchecked_total has_auth : forall inp p, ox_path false has_auth p inp <> None.
+Proof.
+  induction inp as [|c rest IH]; intro p; cbn [ox_path].
+  - destruct (ox_close has_auth p false). cbn [andb]. discriminate.
+  - destruct (N.eqb c k_slash).
+    + destruct (ox_close has_auth p true). cbn [andb]. apply IH.
+    + destruct (N.eqb c k_qmark || N.eqb c k_hash).
+      * destruct (ox_close has_auth p false). cbn [andb]. discriminate.
+      * apply IH.
+Qed.
+Theorem resolve_impl_total : forall base ref, resolve_impl base ref <> None.
+Proof.
+  intros base ref. unfold resolve_impl, resolve_gen.
+  destruct (p_scheme (parse5 ref)); [discriminate|].
+  destruct ref as [|c rest]; [discriminate|].
+  set (ha := match p_authority (parse5 base) with Some _ => true | None => false end).
+  destruct (N.eqb c k_slash).
+  - destruct rest as [|d rest'].
+    + pose proof (ox_path_unchecked_total ha [] [k_slash]) as H.
+      destruct (ox_path false ha [k_slash] []) as [[p t]|]; [discriminate | congruence].
+    + destruct (N.eqb d k_slash); [discriminate|].
+      pose proof (ox_path_unchecked_total ha (d :: rest') [k_slash]) as H.
+      destruct (ox_path false ha [k_slash] (d :: rest')) as [[p t]|]; [discriminate | congruence].
+  - destruct (N.eqb c k_qmark); [discriminate|]. destruct (N.eqb c k_hash); [discriminate|].
+    pose proof (ox_path_unchecked_total ha (c :: rest) (ox_remove_last ha (p_path (parse5 base)))) as H.
+    destruct (ox_path false ha (ox_remove_last ha (p_path (parse5 base))) (c :: rest)) as [[p t]|]; [discriminate | congruence].
+Qed.
 
 (* (2) the resolver is not the algorithm of RFC 3986 5.2 ... *)
 Example resolve_keeps_dots_refuted :      (* reference with a scheme: dot segments are kept *)
@@ -200,7 +229,7 @@ Proof.
   - apply orb_true_iff in H. destruct H as [H|H]; apply N.eqb_eq in H; subst c.
     + pose proof (parse5_query_ref rest) as P.
       destruct (split_first (N.eqb k_hash) rest) as [a f] eqn:E.
-      unfold resolve_impl, resolve, transform. rewrite P.
+      unfold resolve_impl, resolve_gen, resolve, transform. rewrite P.
       cbn [p_scheme p_authority p_path p_query p_fragment].
       change (N.eqb k_qmark k_slash) with false. change (N.eqb k_qmark k_qmark) with true. cbv iota.
       unfold recompose. cbn [p_scheme p_authority p_path p_query p_fragment].
@@ -208,7 +237,7 @@ Proof.
       rewrite (split_first_app _ _ _ _ E). simpl. f_equal. f_equal.
       destruct f as [[d r]|]; [|reflexivity]. simpl.
       pose proof (split_first_char _ _ _ _ _ E) as Hd. apply N.eqb_eq in Hd. subst d. reflexivity.
-    + unfold resolve_impl, resolve, transform. rewrite parse5_frag_ref.
+    + unfold resolve_impl, resolve_gen, resolve, transform. rewrite parse5_frag_ref.
       cbn [p_scheme p_authority p_path p_query p_fragment].
       change (N.eqb k_hash k_slash) with false. change (N.eqb k_hash k_qmark) with false.
       change (N.eqb k_hash k_hash) with true. cbv iota.
